@@ -212,8 +212,7 @@ structure WF (c : Cfg) : Prop where
   off_pos : 1 ≤ c.off
   err_le : c.maxError ≤ c.off
   cap_eq : c.cap = (c.tlen + (c.off + c.maxError) - 1) / c.off + 1
-  rule : c.rule = { retireSubMaxError := true, flushFromLastTick := true }
-  compl : c.complement = false
+  rule : c.rule = { retireSubMaxError := true, flushFromLastTick := true, tickByPosition := true }
 
 theorem WF.cap_pos {c : Cfg} (w : WF c) : 0 < c.cap := by rw [w.cap_eq]; exact Nat.succ_pos _
 
@@ -535,42 +534,96 @@ theorem tubeEndIndex_tick {c : Cfg} (w : WF c) (j : Nat) : tubeEndIndex c (tickP
   show (((((j + 1) * c.off - 1) / c.off : Nat)) : Int) = j
   rw [hdiv]
 
+/-! ### the ticker: `tick(passed)` retires the tubes that have ended -/
+
+theorem tickLoop_done (c : Cfg) (passed fuel : Nat) (st : St) (ticker : Nat) (h : passed < ticker) :
+    tickLoop c passed fuel st ticker = { st := st, ticker := ticker } := by
+  cases fuel with
+  | zero => rfl
+  | succ n => rw [tickLoop, if_neg (by omega)]
+
+/-- fuel beyond `passed + 1 - ticker` is never used (`tubeOffset ≥ 1`) -/
+theorem tickLoop_more (c : Cfg) (hoff : 1 ≤ c.off) (passed : Nat) : ∀ (fuel : Nat) (st : St) (ticker d : Nat),
+    passed + 1 - ticker ≤ fuel → tickLoop c passed (fuel + d) st ticker = tickLoop c passed fuel st ticker := by
+  intro fuel
+  induction fuel with
+  | zero =>
+    intro st ticker d h
+    rw [tickLoop_done c passed _ st ticker (by omega), tickLoop_done c passed _ st ticker (by omega)]
+  | succ n ih =>
+    intro st ticker d h
+    by_cases hle : ticker ≤ passed
+    · rw [show n + 1 + d = (n + d) + 1 by omega, tickLoop, tickLoop, if_pos hle, if_pos hle]
+      exact ih _ _ d (by omega)
+    · rw [tickLoop_done c passed _ st ticker (by omega), tickLoop_done c passed _ st ticker (by omega)]
+
+theorem tick_done (c : Cfg) (l : Loop) (passed : Nat) (h : passed < l.ticker) : tick c l passed = l := by
+  unfold tick; rw [tickLoop_done c passed _ l.st l.ticker h]
+
+/-- one turn of the loop of `tick` -/
+theorem tick_unfold (c : Cfg) (hoff : 1 ≤ c.off) (l : Loop) (passed : Nat) (h : l.ticker ≤ passed) :
+    tick c l passed = tick c { st := tubeEnd c l.st (l.ticker - 1), ticker := l.ticker + c.off } passed := by
+  unfold tick
+  simp only []
+  rw [show passed + 1 - l.ticker = (passed - l.ticker) + 1 by omega, tickLoop, if_pos h]
+  have hd : passed - l.ticker = (passed + 1 - (l.ticker + c.off)) + (passed - l.ticker - (passed + 1 - (l.ticker + c.off))) := by
+    omega
+  rw [hd, tickLoop_more c hoff passed _ _ _ _ (Nat.le_refl _)]
+
+/-- the tube that ends exactly now -/
+theorem tick_one (c : Cfg) (hoff : 1 ≤ c.off) (l : Loop) (passed : Nat) (h : l.ticker = passed) :
+    tick c l passed = { st := tubeEnd c l.st (passed - 1), ticker := passed + c.off } := by
+  rw [tick_unfold c hoff l passed (by omega), tick_done _ _ _ (by show passed < l.ticker + c.off; omega), h]
+
+/-- retiring up to `p` and then up to `p' ≥ p` is retiring up to `p'` -/
+theorem tick_tick (c : Cfg) (hoff : 1 ≤ c.off) (p p' : Nat) (hp : p ≤ p') : ∀ (n : Nat) (l : Loop),
+    p + 1 - l.ticker ≤ n → tick c (tick c l p) p' = tick c l p' := by
+  intro n
+  induction n with
+  | zero => intro l h; rw [tick_done c l p (by omega)]
+  | succ n ih =>
+    intro l h
+    by_cases hle : l.ticker ≤ p
+    · rw [tick_unfold c hoff l p hle, tick_unfold c hoff l p' (by omega)]
+      exact ih _ (by show p + 1 - (l.ticker + c.off) ≤ n; omega)
+    · rw [tick_done c l p (by omega)]
+
 /-- the invariant of the loop over the callbacks: the monitor and the ticker -/
 structure LInv (c : Cfg) (i lo hi m qi : Nat) (l : Loop) (p r : Nat) : Prop where
   minv : MInv c i lo hi m qi l.st p r
-  tick : ∃ j, l.ticker = ((tickPos c j : Nat) : Int) + 1 - p ∧ p ≤ tickPos c j ∧ ∀ j', j' < j → tickPos c j' < p
+  tick : ∃ j, l.ticker = tickPos c j + 1 ∧ p ≤ tickPos c j ∧ ∀ j', j' < j → tickPos c j' < p
 
 theorem MInv_next (c : Cfg) (i lo hi m qi : Nat) (st : St) (p r : Nat) (inv : MInv c i lo hi m qi st p r)
     (hne : p ≠ qi) : MInv c i lo hi m qi st (p + 1) r :=
   ⟨inv.nopanic, inv.size, fun h => by have := inv.wf h; omega, inv.run, inv.late.imp id (by omega)⟩
 
-/-- after the common k-mers of position `p` (state `st1`), the ticker -/
+/-- after the common k-mers of position `p` (state `st1`), the ticker: `tick(p + 1)` -/
 theorem ticker_step {c : Cfg} (w : WF c) (i lo hi m qi : Nat) (l : Loop) (st1 : St) (p r : Nat)
-    (htick : ∃ j, l.ticker = ((tickPos c j : Nat) : Int) + 1 - p ∧ p ≤ tickPos c j ∧ ∀ j', j' < j → tickPos c j' < p)
+    (htick : ∃ j, l.ticker = tickPos c j + 1 ∧ p ≤ tickPos c j ∧ ∀ j', j' < j → tickPos c j' < p)
     (inv : MInv c i lo hi m qi st1 p r)
     (hthr : (m : Int) ≥ c.minKmers) (hm1 : 1 ≤ m)
     (hband : i * c.off ≤ c.tlen + lo) (hlohi : lo ≤ hi) (hqi : qi = tickPos c i)
     (hhiq : hi ≤ qi) (hr_all : hi ≤ p → r = m) (hr_none : 1 ≤ r → lo ≤ p) :
-    LInv c i lo hi m qi
-      (if l.ticker - 1 = 0 then { st := tubeEnd c st1 p, ticker := c.off } else { st := st1, ticker := l.ticker - 1 })
-      (p + 1) r := by
+    LInv c i lo hi m qi (tick c { st := st1, ticker := l.ticker } (p + 1)) (p + 1) r := by
   obtain ⟨j, hj1, hj2, hj3⟩ := htick
+  have hoff := w.off_pos
   by_cases hfire : p = tickPos c j
-  · rw [if_pos (by omega)]
+  · rw [tick_one c hoff _ (p + 1) (by show l.ticker = p + 1; omega)]
     constructor
-    · show MInv c i lo hi m qi (tubeEnd c st1 p) (p + 1) r
+    · show MInv c i lo hi m qi (tubeEnd c st1 (p + 1 - 1)) (p + 1) r
+      rw [Nat.add_sub_cancel]
       unfold tubeEnd
       rw [hfire, tubeEndIndex_tick w j, ← hfire]
       exact retire_step w i lo hi m qi st1 p r j inv hfire hthr hm1 hband hlohi hqi hhiq hr_all hr_none
     · refine ⟨j + 1, ?_, ?_, ?_⟩
-      · show (c.off : Int) = _
+      · show p + 1 + c.off = _
         rw [tickPos_succ w]; omega
-      · rw [tickPos_succ w]; have := w.off_pos; omega
+      · rw [tickPos_succ w]; omega
       · intro j' hj'
         by_cases h : j' = j
         · subst h; omega
         · have := hj3 j' (by omega); omega
-  · rw [if_neg (by omega)]
+  · rw [tick_done _ _ _ (by show p + 1 < l.ticker; omega)]
     constructor
     · show MInv c i lo hi m qi st1 (p + 1) r
       apply MInv_next c i lo hi m qi st1 p r inv
@@ -581,7 +634,7 @@ theorem ticker_step {c : Cfg} (w : WF c) (i lo hi m qi : Nat) (l : Loop) (st1 : 
       · have := hj3 i h; omega
       · subst h; exact hfire hpq
       · have := tickPos_lt w h; omega
-    · exact ⟨j, by show l.ticker - 1 = _; omega, by omega, fun j' hj' => by have := hj3 j' hj'; omega⟩
+    · exact ⟨j, hj1, by omega, fun j' hj' => by have := hj3 j' hj'; omega⟩
 
 /-! ### the shared k-mers of the match along the scan -/
 
@@ -648,14 +701,58 @@ theorem Shared.R_last {sh : Nat → Bool} {lo hi m : Nat} (s : Shared sh lo hi m
 
 /-! ### the whole scan -/
 
-/-- the loop of `Filter` over the callbacks for query positions `0 … N-1`; `ts p` are the target
-    positions of the k-mer at query position `p` -/
+/-- one query position of the scan: its common k-mers (none if the position has no callback), then
+    the tubes that end with it -/
+def stepPos (c : Cfg) (l : Loop) (p : Nat) (ts : List Nat) : Loop := tick c (kmers c l p ts) (p + 1)
+
+/-- the scan of `Filter` position by position, for query positions `0 … N-1`; `ts p` are the target
+    positions of the k-mer at query position `p` (`[]` where the callback is skipped).  This is the
+    loop over the callbacks followed by the `tick` that catches up (`scan_calls` in
+    `Proofs/FilterComplete.lean`). -/
 def scanN (c : Cfg) (ts : Nat → List Nat) (l0 : Loop) (N : Nat) : Loop :=
-  ((List.range N).map fun p => (p, ts p)).foldl (fun l call => onKmer c l call.1 call.2) l0
+  ((List.range N).map fun p => (p, ts p)).foldl (fun l call => stepPos c l call.1 call.2) l0
 
 theorem scanN_succ (c : Cfg) (ts : Nat → List Nat) (l0 : Loop) (N : Nat) :
-    scanN c ts l0 (N + 1) = onKmer c (scanN c ts l0 N) N (ts N) := by
+    scanN c ts l0 (N + 1) = stepPos c (scanN c ts l0 N) N (ts N) := by
   unfold scanN; rw [List.range_succ, List.map_append, List.foldl_append]; rfl
+
+/-- the scan with the callback-counting ticker of the first wave, on a query in which every
+    position `0 … N-1` has a callback -/
+def scanCount (c : Cfg) (ts : Nat → List Nat) (l0 : Loop) (N : Nat) : Loop :=
+  ((List.range N).map fun p => (p, ts p)).foldl (fun l call => onKmerCount c l call.1 call.2) l0
+
+theorem scanCount_succ (c : Cfg) (ts : Nat → List Nat) (l0 : Loop) (N : Nat) :
+    scanCount c ts l0 (N + 1) = onKmerCount c (scanCount c ts l0 N) N (ts N) := by
+  unfold scanCount; rw [List.range_succ, List.map_append, List.foldl_append]; rfl
+
+/-- where every position has a callback the countdown of callbacks and the ticker that follows the
+    query position drive the tubes through the same states: the countdown is `ticker - position` -/
+theorem scanCount_eq (c : Cfg) (hoff : 1 ≤ c.off) (ts : Nat → List Nat) (l0 : Loop) (h0 : 1 ≤ l0.ticker) (N : Nat) :
+    (scanCount c ts l0 N).st = (scanN c ts l0 N).st ∧
+    (scanCount c ts l0 N).ticker + N = (scanN c ts l0 N).ticker ∧ N < (scanN c ts l0 N).ticker := by
+  induction N with
+  | zero => exact ⟨rfl, rfl, h0⟩
+  | succ N ih =>
+    obtain ⟨h1, h2, h3⟩ := ih
+    rw [scanCount_succ, scanN_succ]
+    unfold onKmerCount stepPos kmers
+    simp only []
+    rw [h1]
+    by_cases hfire : (scanCount c ts l0 N).ticker - 1 = 0
+    · rw [if_pos hfire, tick_one c hoff _ (N + 1) (by show (scanN c ts l0 N).ticker = N + 1; omega)]
+      refine ⟨?_, ?_, ?_⟩
+      · show tubeEnd c _ N = tubeEnd c _ (N + 1 - 1)
+        rw [Nat.add_sub_cancel]
+      · show c.off + (N + 1) = N + 1 + c.off
+        omega
+      · show N + 1 < N + 1 + c.off
+        omega
+    · rw [if_neg hfire, tick_done c _ (N + 1) (by show N + 1 < (scanN c ts l0 N).ticker; omega)]
+      refine ⟨rfl, ?_, ?_⟩
+      · show (scanCount c ts l0 N).ticker - 1 + (N + 1) = (scanN c ts l0 N).ticker
+        omega
+      · show N + 1 < (scanN c ts l0 N).ticker
+        omega
 
 /-- what the match needs from the scan: every shared position `p` has its target position
     `tstar p` among the target positions of the k-mer at `p`, on the match's tube, not cut -/
@@ -677,8 +774,7 @@ theorem scan_inv {c : Cfg} (w : WF c) (i lo hi m : Nat) (sh : Nat → Bool) (tst
   | zero => exact h0
   | succ N ih =>
     rw [scanN_succ, R_succ]
-    unfold onKmer
-    simp only []
+    unfold stepPos kmers
     have hrle : R sh N ≤ m := by
       rcases Nat.lt_or_ge hi N with h | h
       · rw [hs.R_after N h]; exact Nat.le_refl _
@@ -858,7 +954,7 @@ theorem getTube_init (cap : Nat) (slot : Nat) :
 
 /-- the state of `Filter` after the scan of `N` callbacks, the final `tubeEnd` and the flush -/
 def runFilter (c : Cfg) (ts : Nat → List Nat) (N qlen : Nat) : St :=
-  let l0 : Loop := { st := { tubes := Array.replicate c.cap default, hits := [] }, ticker := ((c.off + c.maxError : Nat) : Int) }
+  let l0 : Loop := { st := { tubes := Array.replicate c.cap default, hits := [] }, ticker := c.off + c.maxError }
   let l := scanN c ts l0 N
   let st := tubeEnd c l.st (qlen - 1)
   let r := flushRange c qlen
@@ -882,14 +978,14 @@ theorem run_complete {c : Cfg} (w : WF c) (i lo hi m : Nat) (sh : Nat → Bool) 
   have hlohi : lo ≤ hi := (hs.range lo hs.first).2
   -- the scan
   have h0 : LInv c i lo hi m (tickPos c i)
-      { st := { tubes := Array.replicate c.cap default, hits := [] }, ticker := ((c.off + c.maxError : Nat) : Int) } 0 0 := by
+      { st := { tubes := Array.replicate c.cap default, hits := [] }, ticker := c.off + c.maxError } 0 0 := by
     constructor
     · refine ⟨rfl, by simp, ?_, fun h => by omega, Or.inr (Nat.zero_le _)⟩
       intro h; rw [getTube_init] at h
       have : (default : Tube).count = 0 := rfl
       omega
     · refine ⟨0, ?_, Nat.zero_le _, fun j' hj' => by omega⟩
-      show ((c.off + c.maxError : Nat) : Int) = _
+      show c.off + c.maxError = _
       unfold tickPos; omega
   have hscan := scan_inv w i lo hi m sh tstar ts _ hs he hthr hm1 hD hband hhiq h0 (qlen - c.k + 1)
   rw [hs.R_after _ (by omega)] at hscan
